@@ -153,11 +153,12 @@ impl Sources {
         Self::from_features(cfg.feats.iter().enumerate().map(|(i, f)| f.parse(i)).collect())
     }
 
-    /// Capture locations as a matched definition yields them: an outer group with a
-    /// nested one that ends before its parent, a group up to the end, the whole match.
+    /// Capture locations as a matched definition yields them (see the pattern).
     fn caps(text: &str) -> regex::CaptureLocations {
         thread_local! {
-            static RE: regex::Regex = regex::Regex::new(r"^((\S+) \S+)(.*)$").unwrap();
+            // gaps before the first group and between the groups, a nested group that ends
+            // before its parent, an unmatched tail
+            static RE: regex::Regex = regex::Regex::new(r"^\S+ ((\S)\S*) (\S+)").unwrap();
         }
         RE.with(|re| {
             let mut locs = re.capture_locations();
